@@ -35,4 +35,16 @@ TEXT = {
     level_text="Generated-input search over sequences of frame classes x msize x chunkings; both an absolute and a metamorphic (same frame alone on a fresh channel) oracle; panics are caught and reported.",
     level_note="Trusted: refwire decoder, memconn read plan. Nothing is asserted after an impossible length prefix or a truncated stream.",
  ),
+ "C08": dict(
+    technique="model-based property testing (rapid-generated operation histories, shrunk as one value) of SFileSys against a reference fid table; real table read through a build-tagged hook after every step",
+    design_ref="DESIGN.md section 4, C08",
+    level_text="Stateful generated-history search with an explicit reference model: outcome, returned qids, target handle of each file-system call and the complete fid table are compared after every step.",
+    level_note="Trusted: mockfs conventions, the reference model in harness/sessfs/engine.go, the read-only hook VerifFidTable. Auth fids are not modelled (an afid other than NOFID must fail).",
+ ),
+ "C13": dict(
+    technique="model-based property testing with fault injection into every FileSys/Dirent/File call and Stop at generated points; oracle = per-handle release accounting in the instrumented mock",
+    design_ref="DESIGN.md section 4, C13",
+    level_text="Generated histories x generated failure points; each entry handed out by the mock is a unique handle whose releases and later uses are counted, so leaks, double releases and use-after-release are observed directly.",
+    level_note="Trusted: mockfs instrumentation; hook VerifFidTable. Concurrent release paths are C14's business.",
+ ),
 }
